@@ -18,6 +18,9 @@ pub struct Cell {
     pub f: Ty,
     pub et: Ty,
     pub tt: Ty,
+    /// expression context of an address-of argument and statement context of the statement
+    pub x: String,
+    pub y: String,
 }
 
 impl Cell {
@@ -32,10 +35,13 @@ impl Cell {
             f: ty::ty_from_json(&v["f"]),
             et: ty::ty_from_json(&v["et"]),
             tt: ty::ty_from_json(&v["tt"]),
+            x: c["x"].as_str().unwrap_or("direct").to_string(),
+            y: c["y"].as_str().unwrap_or("top").to_string(),
         }
     }
     pub fn key(&self) -> String {
-        format!("{} {} {} {} /{}", self.ctx, self.kind, ty::key(&self.d), if self.path.is_empty() { "-".to_string() } else { self.path.join(".") }, self.k)
+        let base = format!("{} {} {} {} /{}", self.ctx, self.kind, ty::key(&self.d), if self.path.is_empty() { "-".to_string() } else { self.path.join(".") }, self.k);
+        if self.x == "direct" && self.y == "top" { base } else { format!("{} @{}/{}", base, self.x, self.y) }
     }
 }
 
@@ -114,11 +120,29 @@ pub fn render(c: &Cell) -> Rendered {
     if needs_sp2 {
         params.push(format!("sp2: {}", syntax(&c.et)));
     }
+    let mut ret: Option<String> = None;
     if c.ctx == "arg" || c.ctx == "argmiss" {
-        lines.push(format!("fn callee(q: {});", syntax(&c.tt)));
+        match c.x.as_str() {
+            "elem" => lines.push(format!("fn sink_v(v: []{});", syntax(&c.tt))),
+            "member" => {
+                lines.push(format!("struct MX {{ m: {} }}", syntax(&c.tt)));
+                lines.push("fn sink_m(v: MX);".to_string());
+            }
+            "nested" => {
+                lines.push(format!("fn callee(q: {}) -> i32;", syntax(&c.tt)));
+                lines.push("fn sink_a(v: i32);".to_string());
+            }
+            "ret" => ret = Some(syntax(&c.tt)),
+            "cond" => {}
+            _ => lines.push(format!("fn callee(q: {});", syntax(&c.tt))),
+        }
     }
-    lines.push(format!("fn t({})", params.join(", ")));
+    match &ret {
+        Some(r) => lines.push(format!("fn t({}) -> {}", params.join(", "), r)),
+        None => lines.push(format!("fn t({})", params.join(", "))),
+    }
     lines.push("{".to_string());
+    lines.extend(ty::CTX_LOCALS.iter().map(|s| s.to_string()));
     lines.push("\tvar tv: i32 = 7i32;".to_string());
     lines.push("\tvar tp: &i32 = &tv;".to_string());
     lines.push("\tvar ta: [2]i32 = [7i32, 8i32];".to_string());
@@ -148,8 +172,17 @@ pub fn render(c: &Cell) -> Rendered {
                 format!("\tvar r: {} = {};", syntax(&c.tt), r)
             }
         }
-        _ => format!("\tcallee({});", r),
+        _ => match c.x.as_str() {
+            "paren" => format!("\tcallee(({}));", r),
+            "elem" => format!("\tsink_v([{}]);", r),
+            "member" => format!("\tsink_m(MX {{ m: {} }});", r),
+            "nested" => format!("\tsink_a(callee({}));", r),
+            "ret" => format!("\treturn: {}", r),
+            "cond" => format!("\tif {} == {} {{ fill = 1i32; }}", r, r),
+            _ => format!("\tcallee({});", r),
+        },
     };
+    let construct = if c.y != "top" && c.x != "ret" { format!("\t{}", ty::in_stmt_ctx(&c.y, &construct, "c")) } else { construct };
     lines.push(construct);
     let line = lines.len();
     lines.push("}".to_string());
